@@ -35,7 +35,8 @@ ASSUMPTIONS = ["pvm/ref/oftable.py + ofmatch.py state the 1.0 semantics",
 REQUIRED = ["steps", "tables_compared", "replaced", "modified", "deleted",
             "expired_idle", "expired_hard", "flow_removed_checked",
             "overlap_errors", "packets_counted", "idle_refreshed",
-            "bounded_table_cases", "table_full_errors", "reconnects"]
+            "bounded_table_cases", "table_full_errors", "reconnects",
+            "matches_in_another_spelling", "overlap_check_passed_at_equal_priority"]
 TIMEOUT = {"quick": 900, "thorough": 7200}
 
 FW = OM
@@ -71,7 +72,12 @@ ACTIONS = [[dict(type=0, port=2, max_len=0)],
            # actions that change the frame's length on its way out: an entry
            # counts the bytes of the packets that *matched* it
            [dict(type=1, vlan_vid=7), dict(type=0, port=2, max_len=0)],
-           [dict(type=3), dict(type=0, port=3, max_len=0)]]
+           [dict(type=3), dict(type=0, port=3, max_len=0)],
+           # a drop rule, and outputs to reserved ports (which an out_port
+           # filter may name too)
+           [],
+           [dict(type=0, port=0xfffb, max_len=0)],
+           [dict(type=0, port=0xfff8, max_len=0), dict(type=0, port=2, max_len=0)]]
 
 _src = bytes.fromhex("020000000001"); _dst = bytes.fromhex("020000000002")
 FRAMES = [
@@ -86,6 +92,12 @@ FRAMES = [
   (1, F.eth(_dst, _src, 0x0800, F.ipv4(0x0a090909, 0x0a010203, 17,
             F.udp(7, 9, b"t" * 30, src=0x0a090909, dst=0x0a010203)),
             vlan=(3, 0, 100))),
+  # short datagrams padded to the minimum Ethernet frame size: the padding is
+  # part of the frame the entry (and the port) received
+  (4, F.eth(_dst, _src, 0x0800, F.ipv4(0xc0a80001, 0x0a020001, 6,
+            F.tcp(1, 2, b"", src=0xc0a80001, dst=0x0a020001))) + b"\0" * 6),
+  (1, F.eth(_dst, _src, 0x0800, F.ipv4(0x0a090909, 0x0a010909, 17,
+            F.udp(1000, 4000, b"y", src=0x0a090909, dst=0x0a010909))) + b"\0" * 17),
 ]
 
 # an entry without any wildcard (it ranks above every wildcarded entry
@@ -95,15 +107,58 @@ MATCHES.append(mk(0, **{k: (int.from_bytes(v, "big") if k in ("nw_src", "nw_dst"
                             and isinstance(v, bytes) else v)
                         for k, v in _ex.items()}))
 
+EXACT = len(MATCHES) - 1
+
+# pairs that do NOT overlap at equal priority (an overlap check that always
+# says "overlap" must be seen to be wrong), and one that overlaps only
+# through a field that is not applicable
+MATCHES += [
+  mk(ipw(32, 16), dl_type=0x0800, nw_dst=0x0a020000),               # 10.2/16 (disjoint from 10.1/16)
+  mk(ipw(32, 32, OM.FW_NW_PROTO | OM.FW_TP_DST), dl_type=0x0800, nw_proto=6, tp_dst=80),
+  mk(ipw(32, 32, OM.FW_NW_PROTO | OM.FW_TP_DST), dl_type=0x0800, nw_proto=6, tp_dst=81),
+  mk(ALLW & ~OM.FW_DL_TYPE, dl_type=0x0806),                        # ARP (disjoint from all IP ones)
+  mk(ALLW & ~OM.FW_DL_VLAN, dl_vlan=100),
+]
+
 # (the priority field of an entry without wildcards is "not meaningful" in
 #  1.0, and whether two such entries that differ only in it are the same entry
 #  is not something the statement settles: the exact entry always carries the
 #  same priority here)
-EXACT = len(MATCHES) - 1
 
 STATS_REQ = ofwire.enc_message("stats_request", dict(
   xid=0x7777, type=1, flags=0,
   body=dict(match=MATCHES[5], table_id=0xff, out_port=0xffff)))
+
+
+def respell (m, how, salt):
+  """
+  The same match written differently on the wire: address bits below the
+  prefix length set (1), junk in fields that are wildcarded (2), a wildcard
+  width above 32 for an ignored address (3).  None of it is part of the match.
+  """
+  m = dict(m)
+  wc = m["wildcards"]
+  if how == 1:
+    for f, sh in (("nw_src", OM.FW_NW_SRC_SHIFT), ("nw_dst", OM.FW_NW_DST_SHIFT)):
+      w = min((wc >> sh) & 63, 32)
+      if w: m[f] = m[f] | ((0x5a5a5a5a ^ salt) & ((1 << w) - 1))
+  elif how == 2:
+    for f, bit, val in (("in_port", OM.FW_IN_PORT, 7), ("dl_vlan", OM.FW_DL_VLAN, 99),
+                        ("tp_src", OM.FW_TP_SRC, 1234), ("tp_dst", OM.FW_TP_DST, 4321),
+                        ("nw_proto", OM.FW_NW_PROTO, 17), ("nw_tos", OM.FW_NW_TOS, 0x20),
+                        ("dl_vlan_pcp", OM.FW_DL_VLAN_PCP, 5)):
+      if wc & bit: m[f] = val
+    if wc & OM.FW_DL_SRC: m["dl_src"] = b"\x02\x11\x22\x33\x44\x55"
+    if wc & OM.FW_DL_DST: m["dl_dst"] = b"\x02\x66\x77\x88\x99\xaa"
+  elif how == 3:
+    for sh in (OM.FW_NW_SRC_SHIFT, OM.FW_NW_DST_SHIFT):
+      if (wc >> sh) & 63 == 32: wc |= (rng_width(salt) << sh)
+    m["wildcards"] = wc
+  return m
+
+
+def rng_width (salt):
+  return 33 + salt % 31
 
 
 def key_of (match, priority):
@@ -133,7 +188,12 @@ class Run (object):
     self.rep.violation("C04 " + key, what, self.case)
 
   def at_half (self):
-    self.clock.now = self.slot + 0.5
+    # the sub-second phase of each command / packet is part of the case
+    # (time never runs backwards within a slot)
+    pp = self.case.get("pp") or [0.5]
+    self._pi = getattr(self, "_pi", -1) + 1
+    t = self.slot + pp[self._pi % len(pp)]
+    if t > self.clock.now: self.clock.now = t
 
   def drain (self):
     b = self.sw.take_bytes()
@@ -145,10 +205,14 @@ class Run (object):
 
   # -- steps
   def do_fm (self, op):
-    _, cmd, mi, prio, flags, out_port, idle, hard, ai = op
+    _, cmd, mi, prio, flags, out_port, idle, hard, ai = op[:9]
     self.at_half()
     self.xid += 1
-    fm = dict(xid=self.xid, match=MATCHES[mi], cookie=self.xid, command=cmd,
+    match = MATCHES[mi]
+    if len(op) > 9 and op[9]:
+      match = respell(match, op[9], self.xid)
+      self.rep.count("matches_in_another_spelling")
+    fm = dict(xid=self.xid, match=match, cookie=self.xid, command=cmd,
               idle_timeout=idle, hard_timeout=hard, priority=prio,
               buffer_id=0xffffffff, out_port=out_port, flags=flags,
               actions=ACTIONS[ai])
@@ -168,6 +232,11 @@ class Run (object):
         e.setdefault("cookie_alt", set()).add(fm["cookie"])
     if removed:
       self.rep.count("deleted", len(removed)); self.flags.add("nt")
+    if not errors and cmd == 0 and (flags & OT.FF_CHECK_OVERLAP) and \
+       any(e["priority"] == prio and key_of(e["match"], e["priority"]) != key_of(match, prio)
+           for e in before.values()):
+      # an entry of the same priority exists and the new one does not overlap it
+      self.rep.count("overlap_check_passed_at_equal_priority")
     if errors:
       if any(c == OT.FMFC_ALL_TABLES_FULL for (t, c) in errors):
         self.rep.count("table_full_errors")
@@ -209,7 +278,10 @@ class Run (object):
 
   def do_sweep (self, op):
     self.slot += 1
-    self.clock.now = float(self.slot)
+    sp = self.case.get("sp") or [0.0]
+    self._si = getattr(self, "_si", -1) + 1
+    self.clock.now = self.slot + sp[self._si % len(sp)]
+    self._swept = True
     try:
       self.sw.switch.table.remove_expired_entries()
     except Exception:
@@ -270,7 +342,7 @@ class Run (object):
           self.fire("%s: error carries wrong xid" % where, "%d vs %d" % (m["xid"], xid))
 
   def compare_tables (self, after):
-    self.at_half() if self.clock.now != float(self.slot) else None
+    # (the probe happens at the instant the step before it left the clock at)
     try:
       self.sw.feed(STATS_REQ)
     except Exception:
@@ -417,10 +489,11 @@ def gen_random (rng, count, maxlen):
                     rng.choice([0, SFR, SFR, SFR | CO, CO]),
                     # the out_port filter applies to the delete commands only;
                     # on add/modify the field is noise and must be ignored
-                    rng.choice([0xffff, 0xffff, 2, 3]) if cmd in (3, 4)
+                    rng.choice([0xffff, 0xffff, 2, 3, 0xfffb, 0xfff8, 0xfffd, 0]) if cmd in (3, 4)
                     else rng.choice([0xffff, 0xffff, 0xffff, 2, 3, 0, 0xfffd]),
                     rng.choice([0, 0, 3, 7]), rng.choice([0, 0, 3, 7]),
-                    rng.randrange(len(ACTIONS))])
+                    rng.randrange(len(ACTIONS)),
+                    rng.choice([0, 0, 0, 1, 2, 3])])
       elif r < 0.78:
         ops.append(["pkt", rng.randrange(len(FRAMES))])
       elif r < 0.8:
@@ -430,6 +503,9 @@ def gen_random (rng, count, maxlen):
       else:
         ops.append(["sweep"])
     case = dict(ops=ops + SUFFIX[-4:])
+    if rng.random() < 0.5:
+      case["pp"] = [rng.choice([0.1, 0.5, 0.9]) for _ in range(rng.randrange(1, 6))]
+      case["sp"] = [rng.choice([0.0, 0.3, 0.7]) for _ in range(rng.randrange(1, 4))]
     if rng.random() < 0.3: case["max_entries"] = rng.choice([1, 2, 3, 4])
     yield case
 
